@@ -292,6 +292,10 @@ def cqm_case(ctx, r, B, spec):
             ctx.fail('correspondence', site, ic, f'prefix/version {pre!r} {fver}', detail=dict(source=rp)); continue
         # header bytes themselves
         B.add(f'mkhdr {F.hx(pre)} 2 0 {F.hx(text)}', F.hx(data[:hend]), 'make_header vs makeHeader', ic, 'header bytes', rp)
+        B.add(f'hdrtextcqm {cqm_counts(hv)}', F.hx(text), 'ConstrainedQuadraticModel.to_file header text vs dumpsDict(cqmCountsDict)', ic,
+              'header JSON text', rp)
+        B.add(f'parsecnt cqm {F.hx(text)}', cqm_counts(hv), 'read_header + header use vs parseCqmHeader', ic, 'header counts parsed from the text', rp)
+        eocd_case(ctx, B, data, 'ConstrainedQuadraticModel.from_file', ic, rp)
         is_range = variables == list(range(len(variables)))
         lt = 'none' if is_range else F.hx(json.dumps(m.variables.to_serializable()).encode())
         vi = F.content_varinfo(m, np.float64)
@@ -389,6 +393,12 @@ def dqm_case(ctx, r, B, spec, combos=None):
             new = dimod.DQM.from_file(data)
             B.add(f'decdqmm {members}', 'ok ' + F.content_dqm(new), 'DiscreteQuadraticModel.from_numpy_vectors vs dqmFromMembers', ic,
                   'content rebuilt from the arrays', rp)
+            B.add(f'hdrtextdqm {counts} {"T" if hv["variables"] else "F"}', F.hx(text),
+                  'DiscreteQuadraticModel.to_file header text vs dumpsDict(dqmCountsDict)', ic, 'header JSON text', rp)
+            B.add(f'parsecnt dqm {F.hx(text)}', ('T' if hv['variables'] else 'F') + ' keys=5', 'read_header + header use vs parseDqmHeader', ic,
+                  'variables flag parsed from the text', rp)
+            eocd_case(ctx, B, npz, 'DiscreteQuadraticModel.from_file (npz blob)', ic, rp)
+            eocd_case(ctx, B, data, 'DiscreteQuadraticModel.from_file (whole file)', ic, rp)
             vt = F.hx(F.vars_text(m.variables))
             lab = '1' if want['variables'] else '0'
             B.add(f'hdrdqm {int(ign)} {wire_labels(m.variables)}', 'T' if hv['variables'] else 'F',
@@ -401,6 +411,68 @@ def dqm_case(ctx, r, B, spec, combos=None):
 
 
 # ------------------------------------------------------------------ labels, paths, headers, sections
+
+def end_rec(data):
+    """zipfile._EndRecData on these bytes -> the model's answer format"""
+    rec = zipfile._EndRecData(io.BytesIO(data))
+    if rec is None:
+        return 'none'
+    return f'{rec[zipfile._ECD_LOCATION]},{rec[zipfile._ECD_SIZE]},{rec[zipfile._ECD_OFFSET]},{rec[zipfile._ECD_ENTRIES_TOTAL]}'
+
+
+SIG = b'PK\x05\x06'
+
+
+def eocd_case(ctx, B, data, site, ic, rp):
+    """the end-of-central-directory search of zipfile vs endRecData, and the side condition of the prefix theorem"""
+    B.add(f'eocd {F.hx(data)}', end_rec(data), 'zipfile._EndRecData vs endRecData', ic, f'end record of {site}', rp)
+    ctx.tick('eocd: signature only in the end record' if data.find(SIG) == data.rfind(SIG) else 'eocd: signature also inside the payload')
+
+
+def dqm_long_vars_case(ctx, r, B):
+    """DQM files whose VARS section is longer than the 64 KiB window zipfile searches for the end record"""
+    site = 'DiscreteQuadraticModel.to_file/from_file'
+    for n, width in ((r.randrange(2300, 2700), 30), (r.randrange(9000, 9500), 4)):
+        for compress, ign in ((False, False), (True, False), (False, True)):
+            kw = f'compress={compress}, ignore_labels={ign}'
+            v0, v1 = 'v' * width + '0', 'v' * width + '1'
+            src = (f"m = dimod.DiscreteQuadraticModel()\nfor i in range({n}):\n    m.add_variable(2, label='v' * {width} + str(i))\n"
+                   f"m.set_linear_case({v0!r}, 1, 1.5)\nm.set_quadratic_case({v0!r}, 1, {v1!r}, 0, -0.25)\n")
+            env = {}
+            exec(F.PRELUDE + src, env)
+            m = env['m']
+            data = m.to_file(compress=compress, ignore_labels=ign).read()
+            pre, fver, text, hend = F.split_header(data)
+            hv = json.loads(text)
+            ln = int.from_bytes(data[hend + 4:hend + 8], 'little')
+            tail = len(data) - (hend + 8 + ln)
+            ic = 'VARS section longer than 64 KiB' if tail >= 65536 + 22 else 'index-labelled, many variables'
+            ctx.case(('dqm-long-vars', n, width, kw), nontrivial=True)
+            ctx.tick(f'dqm long VARS: {ic}')
+            rp = (F.PRELUDE + src + f"new = dimod.DiscreteQuadraticModel.from_file(m.to_file({kw}))\n"
+                  + ("assert list(new.variables) == list(range(m.num_variables()))\n" if ign else "assert list(new.variables) == list(m.variables)\n")
+                  + "import numpy as np\nfor a, b in zip(new.to_numpy_vectors(return_offset=True)[:2], m.to_numpy_vectors(return_offset=True)[:2]):\n"
+                    "    assert np.array_equal(a, b)\n")
+            try:
+                new = dimod.DiscreteQuadraticModel.from_file(data)
+            except Exception as e:  # noqa
+                got = 'err ' + F.classify(e)
+                ctx.fail('property', site, ic, f'{n} variables with {width + 4}-character labels ({len(data)} bytes, {tail} after the npz blob), {kw}: '
+                         f'from_file(to_file(dqm)) raised {type(e).__name__}: {e}', repro=rp)
+            else:
+                want_vars = list(range(n)) if ign else list(m.variables)
+                a, b = new.to_numpy_vectors(return_offset=True), m.to_numpy_vectors(return_offset=True)
+                same = (list(new.variables) == want_vars and np.array_equal(a.case_starts, b.case_starts)
+                        and np.array_equal(a.linear_biases, b.linear_biases) and all(np.array_equal(x, y) for x, y in zip(a.quadratic, b.quadratic))
+                        and a.offset == b.offset)
+                got = f'ok members=6 labels={n if hv["variables"] else "none"}'
+                if not same:
+                    ctx.fail('property', site, ic, f'{n} variables, {kw}: the loaded DQM differs from the original', repro=rp)
+            lab = '1' if hv['variables'] else '0'
+            vt = F.hx(F.vars_text(m.variables))
+            B.add(f'dqmz {F.hx(text)} {lab} {vt} {n} {F.hx(data)}', got, 'DiscreteQuadraticModel.from_file vs dqmLoad', ic,
+                  'outcome of loading the complete file', rp)
+
 
 def label_cases(ctx, r, B):
     labels = list(F.LABEL_POOL) + [('a/b', ('c/d', 1)), 'x\\u002fy', '\\', '"', 'tab\there', 'nul\x00', '\x7f', 'ሴ', ('/',), -12345678901234567890]
@@ -725,4 +797,5 @@ def run(ctx):
         dqm_case(ctx, r, B, spec, combos=[(False, False), (True, True)] if ctx.quick else None)
         flush(ctx, B)
         B = Batch()
+    dqm_long_vars_case(ctx, r, B)
     flush(ctx, B)
